@@ -114,7 +114,7 @@ TEXTS["C14"] = dict(
     level_note=TRUST2)
 TEXTS["C19"] = dict(
     technique="hostile-client fault injection against a live in-process daemon edge: exhaustive server-config x method x credential x wallet table over real gRPC/TLS (no scheduler applies)",
-    level_text="The complete 768-case table {authority configured, none configured} x 16 RPC methods x 12 caller credentials x 2 target wallets is run against real services/api/grpc "
+    level_text="The complete 832-case table {authority configured, none configured} x 16 RPC methods x 13 caller credentials x 2 target wallets is run against real services/api/grpc "
                "servers (TLS 1.3, client-certificate verification, interceptors, handlers, services) on a loopback port, with well-formed payloads that would succeed for a permitted client. "
                "Untrusted callers must obtain no response message and change nothing; trusted callers are served strictly by the subject name of their verified certificate.",
     level_note="No schedule, clock or fault sequence is involved in this property: the simulation technique contributes the hostile peers and the in-process real edge, not interleavings (DESIGN.md section 8). "
